@@ -22,4 +22,5 @@ def layout_family(tier='quick'):
     out.append(T('l:options_comments', 'options {\n    // first\n    LittleEndian = true; // le\n    // second\n    GoPackage = "m" // no semi\n}\n\nroot packet Root {\n    u8 a,\n}\n'))
     out.append(T('l:inline_comments', 'root packet Root {\n    repeat Sub { // open\n        // inner lead\n        u8 x, // inner trail\n        Deep {\n            u8 y, // deep\n        },\n    }, // close\n}\n'))
     out.append(T('l:percent', 'root packet Root {\n    u8 load, // 100% of capacity, rate in %d units %s\n    string s `50%% doc %v`,\n}\n'))
+    out.append(T('l:comment_above_attrs', "root packet Root {\n    u16 MsgType,\n    // user name, zero padded\n    @tag(553)\n    @leftPad('0')\n    char[10] UserName `user`,\n    // above first of three\n    @tag(1)\n    // above second\n    @rightPad(' ')\n    // above the field\n    char[4] c,\n    // above length attribute\n    @tag(9)\n    @lengthOf(Body)\n    u32 BodyLength,\n    Other Body,\n    // above checksum attribute\n    @tag(10)\n    @calculatedFrom(\"CRC32\")\n    u32 Check,\n}\n\npacket Other {\n    u8 v,\n}\n"))
     return out
